@@ -27,7 +27,8 @@ Definition dPMsg : dec policy_msg :=
   else if tag =? 2 then g <- dField ;; el <- dZ ;; st <- dZ ;; en <- dZ ;; dRet (PUpdatePmtpParams g el st en)
   else if tag =? 3 then b <- dField ;; r <- dField ;; e <- dBool ;; dRet (PModifyPmtpRates b r e)
   else if tag =? 4 then mx <- dZ ;; ep <- dZ ;; a <- dBool ;; dRet (PUpdateLPParams mx ep a)
-  else c <- dZ ;; dRet (PModifyLPRates c).
+  else if tag =? 5 then c <- dZ ;; dRet (PModifyLPRates c)
+  else d <- dZ ;; rs <- dList dZ ;; dRet (PUpdateSwapFee d rs).
 
 Inductive pol_step := PSMsg (m : policy_msg) | PSBegin (br : option Z).
 Definition pol_case := (Z * pol_step * bool * policy_state * policy_state)%type.
